@@ -18,7 +18,7 @@ add("C12", "model_checking",
     "bounded exhaustive enumeration of input structures against a reference model (explicit-state, in-process)", "2/C12")
 
 add("C07", "model_checking",
-    "State machine over calendar days: state = environment(d), transition d -> d+1. Every visited day (quick: every change date +-1, "
+    "State machine over calendar days: state = environment(d), transition d -> d+1. Every visited day (quick: every calendar day from 2015-01-01, before that every change date +-1, "
     "month starts, leap days, year ends; thorough: every day 1980-01-01 .. last key + 1 year) the real set_up_policy_environment(d) is "
     "compared leaf by leaf with an independent reference resolver (deviations, vorjahr/jahresanfang look-ups, rounding specs, piecewise "
     "schedules in exact Fractions, date-derived values) and with the AST-scanned rule registry (exactly one implementation per name, "
@@ -235,7 +235,9 @@ EXTRA = {
     "C12": " Also: 155 / 1331 small structures side by side in ONE table (more than 99 units and 422 self-sufficient children) in four row orders x three "
            "household-id schemes, units must be the disjoint union of the blocks' units.",
     "C13": " Also: every DERIVED node (group / person-pointer aggregates, conversions) supplied with marker values in each other unit must behave exactly "
-           "as when supplied in its native unit (a hand-written rule of the same base name keeps precedence by design and is out of this stage).",
+           "as when supplied in its native unit (a hand-written rule of the same base name keeps precedence by design and is out of this stage). The ratio stage is repeated with loss-making "
+           "capital / self-employment / rental income and with all timed amounts scaled; every hand-written one-argument converter rule of every date class "
+           "is evaluated on a signed value alphabet against the exact factor.",
     "C14": " The alphabet now has ~45 calls (same-month dates, wrapped-function / in-place-then-discard / file-path reforms); fresh-interpreter references "
            "are repeated under several PYTHONHASHSEED values.",
     "C15": " Also: every hand-written group-level rule of EVERY period evaluated directly on typed argument alphabets: changing an individual-level "
